@@ -379,6 +379,9 @@ ElemForEach::sortChildren(
         const ElemSort* const   sort = m_sortElems[i];
         assert(sort != 0);
 
+        // Each key has its own language...
+        langString.clear();
+
         const AVT* avt = sort->getLangAVT();
 
         if(0 != avt)
@@ -572,6 +575,9 @@ ElemForEach::transformSelectedChildren(
         {
             const ElemSort* const   sort = m_sortElems[i];
             assert(sort != 0);
+
+            // Each key has its own language...
+            langString.clear();
 
             const AVT* avt = sort->getLangAVT();
 
